@@ -62,6 +62,39 @@ def streams(rng, tier, ctx):
             sim.limits = lim
             cid = "h%d" % i
             cases.append((cid, sim.ops)); meta[cid] = sim
+        # capacity returns: every way a connection can end (one-sided and crossing disconnects, drop, silence/timeout),
+        # then long enough for every lingering entry to expire, then as many newcomers as the limits allow
+        for i in range(n // 3):
+            r = rng.fork()
+            it.op("=== genc%d" % i)
+            k = r.pick([1, 2, 3])
+            lim = (k, r.pick([k, 8]))
+            sim = E.EpSim(r, inter=it)
+            sim.srv(lim[0], lim[1], 1, dict(E.DEFAULT_EP))
+            lat = r.pick([0, 5_000_000])
+            nets = {"c2s": E.Net(latency=lat), "s2c": E.Net(latency=lat)}
+            dt = r.pick([50_000_000, 200_000_000])
+            for j in range(k):
+                sim.cli(j, dict(E.DEFAULT_EP), nets)
+            sim.run(r.range(6, 14), dt, nets)
+            for j in range(k):
+                how = r.pick(["cross", "cross", "sdisc", "cdiscnow", "sdrop", "silence"])
+                if how == "cross":
+                    sim.call(r.pick(["sdisc", "sdiscnow"]), j); sim.call(r.pick(["cdisc", "cdiscnow"]), j)
+                elif how == "silence":
+                    nets[(j, "c2s")] = E.Net(loss=1000); nets[(j, "s2c")] = E.Net(loss=1000)
+                else:
+                    sim.call(how, j)
+            big = 1_000_000_000
+            sim.run(80, big, nets)                      # 80 s: retry budgets (22 s), active timeout (20 s) and the closed linger (20 s) are over
+            sim.settled_from = sim.time
+            for j in range(k, 2 * k):
+                sim.cli(j, dict(E.DEFAULT_EP), nets)
+                sim.run(2, dt, nets)
+            sim.run(r.range(10, 30), dt, nets)
+            sim.limits = lim
+            cid = "r%d" % i
+            cases.append((cid, sim.ops)); meta[cid] = sim
     finally:
         it.close()
     return [{"name": "limits", "mode": "ep", "cases": cases, "meta": meta, "case_timeout": 60}]
@@ -86,6 +119,18 @@ def oracle(stream, cid, ops, outs):
                 break
         elif tag in ("D", "E", "drop"):
             est.discard(p)
+    # (c) capacity returns: a ServerFull refusal needs a limit to be reached. Any entry the server tracks has exchanged a
+    #     datagram with its address within the last 70 s (handshake / disconnect retries 22 s, active timeout 20 s,
+    #     closed linger 20 s), so a refusal while fewer than min(max_total, max_active) other addresses were heard from or
+    #     written to in that period cannot be justified
+    HORIZON = 70_000 * 10**6
+    for (t, tag, p, x) in sev:
+        if tag == "E" and x == "ServerFull":
+            recent = set(q for (tt, dr, q, d) in delivered if q != p and t - HORIZON < tt <= t)
+            recent |= set(q for (q, dr), dgs in log.items() if q != p and any(t - HORIZON < d["time"] <= t for d in dgs))
+            if len(recent) < min(max_total, max_active) and not fails:
+                fails.append({"oracle": "capacity_returns", "detail": "peer %d refused with ServerFull at t=%d ms although only %d other address(es) exchanged a datagram with the server in the preceding 70 s (max_total %d, max_active %d)" %
+                              (p, t // 10**6, len(recent), max_total, max_active), "signature": {"oracle": "capacity_returns"}})
     # (b) API view: the number of RemoteClients reporting is_active() at one instant
     t = 0; active = {}
     for op, o in zip(ops, outs):
